@@ -391,6 +391,77 @@ def run_history(ld, cons, n, hist, tmp, res, cold=False):
     gc.collect()
 
 
+def run_unpicklable(ld, res, tmp):
+    """Examples that cannot be pickled (they hold a function defined on the
+    fly) but can be deep-copied.  A stage whose isolation rests on pickle may
+    refuse them; if it hands one out, the usual rule holds: changing the
+    handed-out object changes nothing that is read later."""
+    core = ld.core
+
+    def mk(i):
+        return {'id': i, 'l': [i, [i]], 'fn': (lambda: i)}
+
+    def view(x):
+        return (x['id'], repr(x['l']), x['fn']())
+    n = 3
+    keys = [f'k{i}' for i in range(n)]
+    pristine = [view(mk(i)) for i in range(n)]
+
+    def build(cname):
+        cont = dict(zip(keys, [mk(i) for i in range(n)]))
+        if cname == 'cache-of-raw':
+            return core.DictDataset(cont).map(copy.deepcopy).cache()
+        if cname == 'cache-of-unisolated':
+            return core.DictDataset(cont).cache()
+        if cname == 'eager-cache-of-raw':
+            return core.DictDataset(cont).map(copy.deepcopy).cache(lazy=False)
+        if cname == 'diskcache-of-raw':
+            return core.DictDataset(cont).map(copy.deepcopy).diskcache(
+                cache_dir=tempfile.mkdtemp(dir=tmp))
+        if cname == 'new-of-raw-dataset':
+            return ld.new(core.DictDataset(cont).map(copy.deepcopy))
+        return ld.new(cont, immutable_warranty=cname.split('-')[1])
+    getters = {
+        'idx': lambda ds: [ds[1]], 'idx-': lambda ds: [ds[-2]], 'key': lambda ds: [ds['k1']],
+        'iter': lambda ds: list(ds), 'items': lambda ds: [v for _, v in ds.items()],
+        'copy-idx': lambda ds: [ds.copy()[1]], 'slice': lambda ds: list(ds[1:]),
+        'first-of-iter': lambda ds: [next(iter(ds))],
+    }
+    for cname in ('cache-of-raw', 'cache-of-unisolated', 'eager-cache-of-raw',
+                  'diskcache-of-raw', 'new-of-raw-dataset', 'new-pickle', 'new-copy'):
+        for how, get in getters.items():
+            case = {'construction': cname, 'values': 'unpicklable', 'first_access': how}
+            sig = {'construction': cname, 'values': 'unpicklable'}
+            res.case(('unpicklable', cname, how), True)
+            try:
+                ds = build(cname)
+                objs = get(ds)
+            except BaseException:
+                res.count('unpicklable_examples_refused')
+                continue
+            res.count('unpicklable_examples_handed_out', len(objs))
+            for x in objs:
+                x['l'].append(99)
+                x['l'][1].append(7)
+                x['id'] = -1
+            leaks = []
+            for rname, read in getters.items():
+                try:
+                    got = [view(x) for x in read(ds)]
+                except BaseException:
+                    continue
+                want = {'idx': pristine[1:2], 'idx-': pristine[1:2], 'key': pristine[1:2],
+                        'copy-idx': pristine[1:2], 'slice': pristine[1:],
+                        'first-of-iter': pristine[:1]}.get(rname, pristine)
+                res.count('rereads_after_mutating_unpicklable_examples')
+                if got != want:
+                    leaks.append((rname, got, want))
+            if leaks:
+                res.violation('mutation-leaked', case, {'first_diff': leaks[0],
+                                                        'n_diffs': len(leaks)},
+                              sig={**sig, 'via': 'handed-out'})
+
+
 def all_steps(n):
     return [(how, i, mut) for how in ACCESS for i in range(n) for mut in MUTATORS
             if not ((how in ('iter', 'items', 'copy-iter', 'old-alias', 'iter-live',
@@ -413,7 +484,13 @@ def run_shard(spec, res):
         # two consumers that get "the same" example of a cold cache at the same
         # time each get their own object (machinery of C10)
         from . import c10
-        return c10.run_race(spec, res)
+        c10.run_race(spec, res)
+        tmp = tempfile.mkdtemp(prefix='verif_c09_')
+        try:
+            run_unpicklable(import_lazy_dataset(), res, tmp)
+        finally:
+            shutil.rmtree(tmp, ignore_errors=True)
+        return
     ld = import_lazy_dataset()
     cons = next(c for c in CONSTRUCTIONS if c[0] == spec['cons'])
     rng = rng_for(spec['seed'], PROPERTY, spec['name'])
@@ -475,6 +552,15 @@ def finalize(res, tier):
 
 def replay(case, res):
     ld = import_lazy_dataset()
+    if case.get('values') == 'unpicklable':
+        tmp = tempfile.mkdtemp(prefix='verif_c09_')
+        try:
+            return run_unpicklable(ld, res, tmp)
+        finally:
+            shutil.rmtree(tmp, ignore_errors=True)
+    if 'race' in case or 'threads' in case:
+        from . import c10
+        return c10.replay(case, res)
     cons = next(c for c in CONSTRUCTIONS if c[0] == case['construction'])
     tmp = tempfile.mkdtemp(prefix='verif_c09_')
     try:
